@@ -115,13 +115,14 @@ class ESETrackModif(EmulatedSymbExec):
         # Split access in atomic accesses
         out = []
         for addr in range(dst_addr, dst_addr + expr_mem.size // 8):
-            if addr in self.dse_memory_range:
-                # Symbolize memory access
-                out.append(self.dse_memory_to_expr(addr))
-                continue
             atomic_access = ExprMem(ExprInt(addr, expr_mem.ptr.size), 8)
             if atomic_access in self.symbols:
+                # Written since the beginning of the run (a symbolized area
+                # included): the symbolic state holds its value
                 out.append( super(EmulatedSymbExec, self).mem_read(atomic_access))
+            elif addr in self.dse_memory_range:
+                # Symbolize memory access
+                out.append(self.dse_memory_to_expr(addr))
             else:
                 # Get concrete value
                 atomic_access = ExprMem(ExprInt(addr, expr_mem.ptr.size), 8)
